@@ -53,7 +53,7 @@ TOKEN_RE = re.compile(
 def configure(tier, avoid):
     quick = tier == 'quick'
     p = gen.Params(max_stmts=10 if quick else 20, max_depth=2, expr_depth=2,
-                   max_procs=1, avoid=avoid)
+                   max_procs=1, avoid=avoid, mixed_case_types=True)
     return {'examples': 700 if quick else 12000, 'params': p, 'tier': tier,
             'quick_sample': 900,
             'bounds': {'max_lines': 40, 'configs': [
@@ -107,10 +107,11 @@ def strategy(cfg):
 
 PRELUDE = ('TYPE rt\nfa AS INTEGER\nfb AS STRING\nEND TYPE\n'
            'DIM r AS rt, r2 AS rt\nDIM arr(3) AS INTEGER, sarr$(2)\n'
-           'n% = 1: s$ = "s": d# = 2.5\n')
+           'n% = 1: s$ = "s": d# = 2.5\nCONST kc = 3\n')
 POSTLUDE = ('END\nlbl: RETURN\n'
             'FUNCTION fn% (p%)\nfn% = p%\nEND FUNCTION\n'
-            'SUB sb (p%, q$)\nEND SUB\n')
+            'SUB sb (p%, q$)\nEND SUB\n'
+            'FUNCTION f0\nf0 = 1\nEND FUNCTION\n')
 FILLERS = {
     'num': '7', 'var': 'n%', 'dbl': 'd#', 'str': '"t"', 'svar': 's$',
     'rec': 'r', 'field': 'r.fa', 'arr': 'arr', 'elem': 'arr(1)',
@@ -118,6 +119,7 @@ FILLERS = {
     'kw': 'TO', 'kw2': 'ELSE', 'neg': '-1', 'big': '99999999999',
     'paren': '(', 'empty': '', 'label': 'lbl', 'nolabel': 'nowhere',
     'expneg': '2 ^ -1', 'strcmp': '"a" < "b"', 'cmp': 'n% > 0',
+    'func0': 'f0', 'const': 'kc', 'sarr': 'sarr$', 'field2': 'r.fb',
 }
 TEMPLATES = [
     'x = {0}', 'LET x% = {0}', 'x$ = {0}', 'r.fa = {0}', 'arr({0}) = {1}',
@@ -166,6 +168,9 @@ TEMPLATES = [
     'EXIT SUB', 'EXIT FUNCTION', 'EXIT FOR', 'EXIT DO', 'fn% = {0}', 'sb = {0}',
     'lbl: PRINT 1', '10 PRINT 1\n10 PRINT 2', 'DECLARE SUB sb ({0})',
     'REM {0}', "' {0}", 'PRINT {0} :: PRINT 2', ': : :',
+    '{0} AS INTEGER', 'zz AS {0}', 'IF n% THEN zz AS LONG',
+    'NEXT {0}', 'FOR {0} = 1 TO 2\nNEXT {0}', 'SWAP {0}, {1}',
+    'x = {0} < {1}', 'IF {0} = {1} THEN PRINT 1',
 ]
 SITES = ['{body}', 'IF n% THEN\n{body}\nEND IF',
          'FOR k9 = 1 TO 1\n{body}\nNEXT',
@@ -212,6 +217,10 @@ def catalogue():
                 fills.append((base[0], f))
             fills.append(('"t"', '"t"'))
             fills.append(('', ''))
+            fills.append(('arr', 'arr'))
+            fills.append(('r', 'r2'))
+            fills.append(('sarr$', 'arr'))
+            fills.append(('f0', 'kc'))
         for fl in fills:
             try:
                 body = tpl.format(*fl)
@@ -240,6 +249,15 @@ def items(cfg):
     if cfg['tier'] == 'quick':
         rng.shuffle(out)
         out = out[:cfg['quick_sample']]
+    # frames at the 16-bit limit of variable operands, with the statements
+    # that allocate hidden or implicit variables: in both tiers
+    for n in range(65480, 65536, 4):
+        for tail in ('FOR i9 = 1 TO 2\nNEXT',
+                     'SELECT CASE n%\nCASE 1\nEND SELECT',
+                     'q1 = 1: q2 = 2: q3 = 3: q4 = 4: q5 = 5',
+                     'DIM q6(1 TO 3)'):
+            out.append(('DIM zbig(1 TO %d) AS INTEGER\n%s' % (n, tail), 0,
+                        False))
     # extreme constants into every numeric target type: in both tiers
     for v in EXTREME:
         for tpl in EXTREME_TEMPLATES:
